@@ -337,6 +337,74 @@ def unknown_sibling_cases(shard, nshards):
             yield case
 
 
+def evaluate_seek_to(case, obs):
+    """seek_to_end() / seek_to_beginning() are explicit seeks: when the call reports success the position is a log
+    end / log start that the broker reported in a reply delivered after the call was made - never the answer of a
+    reset of the other kind that was in flight."""
+    out = Outcome()
+    if obs.start_error is not None:
+        out.label("start_failed:" + obs.start_error.split("(")[0])
+        return out
+    c = obs.cluster
+    for e in c.harness_errors:
+        raise RuntimeError("simulator error: %s" % e)
+    if obs.deadlock:
+        out.fail("seek_wins", "deadlock", {"deadlock": obs.deadlock})
+        return out
+    raced = False
+    for ev in obs.events:
+        if ev["op"] not in ("seek_to_end", "seek_to_beginning") or "error" in ev:
+            continue
+        want_ts = -1 if ev["op"] == "seek_to_end" else -2
+        answers, other = set(), set()
+        for a in c.arrivals:
+            if a.key != 2 or not a.extra.get("answered"):
+                continue
+            asked = {(t["topic"], p["partition"]): p["timestamp"] for t in a.body["topics"] for p in t["partitions"]}
+            for t in a.extra["answered"]["topics"]:
+                for p in t["partitions"]:
+                    if p["error"] != 0 or "%s:%d" % (t["topic"], p["partition"]) != ev["tp"]:
+                        continue
+                    off = p["offsets"][0] if "offsets" in p else p["offset"]
+                    if asked.get((t["topic"], p["partition"])) == want_ts and (a.t_end is None or a.t_end >= ev["t_call"] - 1e-9):
+                        answers.add(off)           # a lookup of the same kind that was still unanswered will do as well
+                    elif asked.get((t["topic"], p["partition"])) != want_ts and a.t < ev["t_call"] and \
+                            (a.t_end is None or a.t_end > ev["t_call"]):
+                        other.add(off)
+                        raced = True
+        if ev.get("returned") and ev.get("position_after") is not None and ev["position_after"] not in answers:
+            out.fail("seek_wins", ev["op"] + "_position", {"event": CS._short(ev), "position": ev["position_after"],
+                                                          "reported_after_the_call": sorted(answers),
+                                                          "answer_of_the_reset_in_flight": sorted(other)})
+    out.nontrivial = raced
+    if raced:
+        out.label("reset_of_other_kind_in_flight_at_seek_to")
+    out.label("policy_" + case["cfg"]["auto_offset_reset"], "iso_" + case["cfg"]["isolation"])
+    return out
+
+
+def execute_seek_to(case):
+    return evaluate_seek_to(case, CS.run(case))
+
+
+def seek_to_cases(shard, nshards):
+    """The first reset lookup (ListOffsets) is held back for 0.3 s; seek_to_end() / seek_to_beginning() is called at a
+    swept instant: before the lookup is sent, while it is in flight, after it was answered."""
+    i = 0
+    for g in GRID:
+        if g[0] not in ("absent", "below") or g[1] == "none":
+            continue
+        for op in ("seek_to_end", "seek_to_beginning"):
+            for t in (0.0, 0.02, 0.05, 0.1, 0.2, 0.3, 0.45):
+                i += 1
+                if i % nshards != shard:
+                    continue
+                case = make_case(g, False, 0.0, 0.6, [{"sel": "list_offsets", "k": 0, "act": "delay", "code": 0, "delay": 0.3}],
+                                 [0.001], 23, 2.0)
+                case["tasks"] = [[["sleep", t], [op, 0], ["getone", [0], 0.3], ["position", 0]]]
+                yield case
+
+
 LATE_TIMES = [0.03, 0.06, 0.1, 0.15, 0.2, 0.25, 0.3, 0.34, 0.4, 0.5]
 
 
@@ -402,6 +470,7 @@ def campaigns(tier):
             Campaign("late_leader", "enum", execute=execute, setup=CS.setup, exhaustive=True,
                      cases=(lambda s, n: late_leader_cases(s, n, 1)) if th else (lambda s, n: late_leader_cases(s, n, 2))),
             Campaign("unknown_sibling", "enum", execute=execute, setup=CS.setup, exhaustive=True, cases=unknown_sibling_cases),
+            Campaign("seek_to_race", "enum", execute=execute_seek_to, setup=CS.setup, exhaustive=True, cases=seek_to_cases),
             Campaign("reassigned", "enum", execute=execute, setup=CS.setup, exhaustive=True, cases=reassigned_cases),
             Campaign("start_sim", "hyp", execute=execute, strategy=strategy,
                      examples=20000 if th else 1000, setup=CS.setup, max_wall=900 if th else 80, shrink_wall=30)]
